@@ -17,8 +17,8 @@
 #include "yv_common.h"
 #include <ctype.h>
 
-#define MAXT 64
-#define MAXR 64
+#define MAXT 1024
+#define MAXR 1024
 #define MAXRHS 16
 #define MAXW (1 << 17)
 #define MAXEXP 4096
